@@ -282,7 +282,25 @@ package updown
 //@   requires sorted(q.snpsSorted) && sorted(q.snpsPos)
 //@   requires forall(t, 0, len(recv(cIn)), len(recv(cIn)[t].snps) == len(recv(cIn)[t].snpsPos) && len(recv(cIn)[t].ambs) % 2 == 0)
 //@   requires forall(t, 0, len(recv(cIn)), sorted(recv(cIn)[t].snpsSorted))
+//@   # no target is dropped silently: in every iteration a target that is not on the --ignore list is compared (whichWay),
+//@   # and a compared target that passes the pairwise threshold and its bin's --dist limit reaches the bin logic; a bin
+//@   # holds min(number of such candidates, sizetotal) entries. The ghost flags are reset per iteration and judged at its
+//@   # end on EVERY path (including `continue`), so an added shortcut that skips a target fails [c08.every.target].
+//@   ghost gIgn bool = false
+//@   ghost gCmp bool = false
+//@   ghost gBinned bool = false
+//@   ghost gMissed int = 0
+//@   ghost gN0 int = 0
+//@   ghost gN1 int = 0
+//@   ghost gN2 int = 0
+//@   ghost gN3 int = 0
+//@   before call:whichWay#1: do gCmp = true
+//@   before switch#1: do gBinned = true; if direction == 0 { gN0++ }; if direction == 1 { gN1++ }; if direction == 2 { gN2++ }; if direction == 3 { gN3++ }
 //@   loop 2:
+//@     do-start gIgn = exists(k, 0, len(ignore), ignore[k] == target.id); gCmp = false; gBinned = false
+//@     do-end if !gIgn && !gCmp { gMissed++ }; if gCmp && distance >= 0 && distance <= distArray[direction] && !gBinned { gMissed++ }
+//@     invariant [c08.every.target] gMissed == 0
+//@     invariant [c08.bin.count] gN0 >= 0 && gN1 >= 0 && gN2 >= 0 && gN3 >= 0 && len(neighbours.same.catchment) == ite(gN0 < sizetotal, gN0, sizetotal) && len(neighbours.up.catchment) == ite(gN1 < sizetotal, gN1, sizetotal) && len(neighbours.down.catchment) == ite(gN2 < sizetotal, gN2, sizetotal) && len(neighbours.side.catchment) == ite(gN3 < sizetotal, gN3, sizetotal)
 //@     invariant len(sent(cOut)) == 0 && neighbours.qname == q.id && neighbours.qidx == q.idx && sizetotal >= 1
 //@     invariant len(neighbours.same.catchment) <= sizetotal && freshslice(neighbours.same.catchment) && len(neighbours.up.catchment) <= sizetotal && freshslice(neighbours.up.catchment) && len(neighbours.down.catchment) <= sizetotal && freshslice(neighbours.down.catchment) && len(neighbours.side.catchment) <= sizetotal && freshslice(neighbours.side.catchment)
 //@     invariant disjoint(neighbours.same.catchment, neighbours.up.catchment) && disjoint(neighbours.same.catchment, neighbours.down.catchment) && disjoint(neighbours.same.catchment, neighbours.side.catchment) && disjoint(neighbours.up.catchment, neighbours.down.catchment) && disjoint(neighbours.up.catchment, neighbours.side.catchment) && disjoint(neighbours.down.catchment, neighbours.side.catchment)
@@ -345,7 +363,25 @@ package updown
 //@   before if#4: do gUp[distance] = true
 //@   before if#5: do gDown[distance] = true
 //@   before if#6: do gSide[distance] = true
+//@   # C12: the flattened map contents are put in order by a STABLE sort on (distance, ambiguity count) at these three sites;
+//@   # ties then keep the order they had inside their per-distance list (= arrival order), whatever order the map was
+//@   # iterated in. (That the flattening keeps each list contiguous is outside the contracts: bounded oracle updown_push_order.)
+//@   after call:SliceStable#1: assert [c12.up.sorted] forall(a, 0, len(neighbours.up.catchment), forall(b, a + 1, len(neighbours.up.catchment), !udLess(neighbours.up.catchment[b].distance, neighbours.up.catchment[b].ambCount, neighbours.up.catchment[a].distance, neighbours.up.catchment[a].ambCount) && implies(!udLess(neighbours.up.catchment[a].distance, neighbours.up.catchment[a].ambCount, neighbours.up.catchment[b].distance, neighbours.up.catchment[b].ambCount), sortperm(a) < sortperm(b))))
+//@   after call:SliceStable#2: assert [c12.down.sorted] forall(a, 0, len(neighbours.down.catchment), forall(b, a + 1, len(neighbours.down.catchment), !udLess(neighbours.down.catchment[b].distance, neighbours.down.catchment[b].ambCount, neighbours.down.catchment[a].distance, neighbours.down.catchment[a].ambCount) && implies(!udLess(neighbours.down.catchment[a].distance, neighbours.down.catchment[a].ambCount, neighbours.down.catchment[b].distance, neighbours.down.catchment[b].ambCount), sortperm(a) < sortperm(b))))
+//@   after call:SliceStable#3: assert [c12.side.sorted] forall(a, 0, len(neighbours.side.catchment), forall(b, a + 1, len(neighbours.side.catchment), !udLess(neighbours.side.catchment[b].distance, neighbours.side.catchment[b].ambCount, neighbours.side.catchment[a].distance, neighbours.side.catchment[a].ambCount) && implies(!udLess(neighbours.side.catchment[a].distance, neighbours.side.catchment[a].ambCount, neighbours.side.catchment[b].distance, neighbours.side.catchment[b].ambCount), sortperm(a) < sortperm(b))))
+//@   # no target is dropped silently (same accounting as in findUpDownCatchment): judged at the end of every iteration
+//@   ghost gIgn bool = false
+//@   ghost gCmp bool = false
+//@   ghost gBinned bool = false
+//@   ghost gMissed int = 0
+//@   ghost gN0 int = 0
+//@   before call:whichWay#1: do gCmp = true
+//@   before switch#1: do gBinned = true; if direction == 0 { gN0++ }
 //@   loop 1:
+//@     do-start gIgn = exists(k, 0, len(ignore), ignore[k] == target.id); gCmp = false; gBinned = false
+//@     do-end if !gIgn && !gCmp { gMissed++ }; if gCmp && distance >= 0 && !gBinned { gMissed++ }
+//@     invariant [c08.every.target] gMissed == 0
+//@     invariant [c08.same.all] len(same.catchment) == gN0
 //@     invariant len(sent(cOut)) == 0
 //@     invariant [up.wf] forallint(k, implies(in(pushup.catchmentMap, k), k >= 0 && k <= pushup.maxDist)) && len(pushup.catchmentMap) <= pushDist && pushup.nDists == len(pushup.catchmentMap) && (len(pushup.catchmentMap) == 0 || in(pushup.catchmentMap, pushup.maxDist))
 //@     invariant [down.wf] forallint(k, implies(in(pushdown.catchmentMap, k), k >= 0 && k <= pushdown.maxDist)) && len(pushdown.catchmentMap) <= pushDist && pushdown.nDists == len(pushdown.catchmentMap) && (len(pushdown.catchmentMap) == 0 || in(pushdown.catchmentMap, pushdown.maxDist))
@@ -354,3 +390,33 @@ package updown
 //@     invariant [down.nearest] forallint(s, implies(in(pushdown.catchmentMap, s), in(gDown, s)) && implies(in(gDown, s), in(pushdown.catchmentMap, s) || (len(pushdown.catchmentMap) == pushDist && s > pushdown.maxDist)))
 //@     invariant [side.nearest] forallint(s, implies(in(pushside.catchmentMap, s), in(gSide, s)) && implies(in(gSide, s), in(pushside.catchmentMap, s) || (len(pushside.catchmentMap) == pushDist && s > pushside.maxDist)))
 //@   ensures len(sent(cOut)) == 1 && sent(cOut)[0].qname == q.id && sent(cOut)[0].qidx == q.idx
+
+//@ # C08: target ambiguity filter and fan-out in file order (spawns mode: `go` statements skipped, the channels made
+//@ # here are a family with one ghost log each). Worker i is started on query i and channel i with the options passed
+//@ # through unchanged; every channel receives exactly the targets whose ambiguity count is within --threshold-target,
+//@ # all of them, in arrival (= file) order - and nothing else is withheld.
+//@ func splitInput spawns
+//@   modifies cErr, cSplitDone
+//@   loop 1:
+//@     invariant 0 <= i && i <= nQ && nQ == len(queries) && len(QChanArray) == nQ && freshslice(QChanArray)
+//@     invariant [chan.made] forall(k, 0, i, madechan(QChanArray[k]))
+//@     invariant [chan.distinct] forall(a, 0, i, forall(b, 0, i, implies(a != b, QChanArray[a] != QChanArray[b])))
+//@   loop 2:
+//@     invariant nQ == len(queries) && len(QChanArray) == nQ
+//@     invariant forall(k, 0, nQ, len(sent(QChanArray[k])) == 0)
+//@   before call:findUpDownCatchmentPushDistance#1: assert [worker.wiring.push] pushDistance > 0 && arg(0) == queries[i] && sameslice(arg(1), ignore) && arg(2) == sizeArray && arg(3) == pushDistance && (arg(4) == threshpair || (isnan(arg(4)) && isnan(threshpair))) && arg(5) == QChanArray[i] && arg(6) == cOut
+//@   before call:findUpDownCatchment#1: assert [worker.wiring] pushDistance <= 0 && arg(0) == queries[i] && sameslice(arg(1), ignore) && arg(2) == sizeArray && arg(3) == nofill && arg(4) == distArray && (arg(5) == threshpair || (isnan(arg(5)) && isnan(threshpair))) && arg(6) == QChanArray[i] && arg(7) == cOut
+//@   loop 3:
+//@     invariant nQ == len(queries) && len(QChanArray) == nQ && len(sent(cSplitDone)) == 0 && len(sent(cErr)) == 0
+//@     invariant [fanout.all] forall(k, 0, nQ, len(sent(QChanArray[k])) == count(t, 0, range_i, recv(cIn)[t].ambCount <= threshtarg))
+//@     invariant [fanout.order] forall(k, 0, nQ, forall(t, 0, range_i, implies(recv(cIn)[t].ambCount <= threshtarg, sent(QChanArray[k])[count(u, 0, t, recv(cIn)[u].ambCount <= threshtarg)] == recv(cIn)[t])))
+//@   loop 4:
+//@     invariant 0 <= i && i <= nQ && nQ == len(queries) && len(QChanArray) == nQ && len(sent(cSplitDone)) == 0 && len(sent(cErr)) == 0 && udL.ambCount <= threshtarg
+//@     invariant forall(k, 0, i, len(sent(QChanArray[k])) == count(t, 0, range_i3, recv(cIn)[t].ambCount <= threshtarg) + 1 && sent(QChanArray[k])[count(t, 0, range_i3, recv(cIn)[t].ambCount <= threshtarg)] == udL)
+//@     invariant forall(k, i, nQ, len(sent(QChanArray[k])) == count(t, 0, range_i3, recv(cIn)[t].ambCount <= threshtarg))
+//@     invariant forall(k, 0, nQ, forall(t, 0, range_i3, implies(recv(cIn)[t].ambCount <= threshtarg, sent(QChanArray[k])[count(u, 0, t, recv(cIn)[u].ambCount <= threshtarg)] == recv(cIn)[t])))
+//@   loop 5:
+//@     invariant len(sent(cSplitDone)) == 0 && len(sent(cErr)) == 0
+//@   before send#2: assert [c08.fanout.count] forall(k, 0, nQ, len(sent(QChanArray[k])) == count(t, 0, len(recv(cIn)), recv(cIn)[t].ambCount <= threshtarg))
+//@   before send#2: assert [c08.fanout.order] forall(k, 0, nQ, forall(t, 0, len(recv(cIn)), implies(recv(cIn)[t].ambCount <= threshtarg, sent(QChanArray[k])[count(u, 0, t, recv(cIn)[u].ambCount <= threshtarg)] == recv(cIn)[t])))
+//@   ensures [done.once] len(sent(cSplitDone)) == 1 && len(sent(cErr)) == 0
